@@ -12,7 +12,7 @@ CLASSES = {
     "plain": ["a", "Z9", "name"], "space": [" "], "quote": ['"'], "semi": [";"], "eq": ["="], "dash": ["-"], "digit": ["7", "250"],
     "backslash": ["\\"], "percent": ["%s", "%"], "dot": ["."], "nonascii": ["é", "ж", "名"], "combining": ["é"], "astral": ["\U0001F600"],
     "semisp": ["; "], "eqsp": ["= "], "spsemi": [" ;"], "spdash": [" -"], "crlfish": ["\\r\\n"],
-    "mlsx": ["Type=dir;", "Size=1;", "Type=dir; "], "arrow": [" -> "], "code": ["250 ", "226-"], "dquote": ['""'], "squote": ["'"],
+    "mlsx": ["Type=dir;", "Size=1;", "Type=dir; "], "arrow": [" -> ", "a -> b", "old -> new"], "code": ["250 ", "226-"], "dquote": ['""'], "squote": ["'"],
 }
 
 
@@ -49,6 +49,9 @@ def run_case(c):
 
     async def sc(factory, w):
         cl = factory()
+        if c.get("fallback"):  # a server without MLSD / MLST: the client lists and stats through LIST
+            w.server.commands_mapping.pop("mlsd")
+            w.server.commands_mapping.pop("mlst")
         await cl.connect("127.0.0.1", W.CTL_PORT)
         await cl.login("u1", "x")
         if c.get("relative"):
@@ -126,6 +129,8 @@ def run(tier, seed):
         cases.append({"name": n, "depth": depth, "fname": f, "gname": g, "relative": False})
         if rng.random() < 0.5 or n != n.lstrip() or n[:1] in "-\"'":
             cases.append({"name": n, "depth": depth, "fname": f, "gname": g, "relative": True})
+        if rng.random() < 0.35 or any(x in n for x in (" -> ", " ", "-", "7")):
+            cases.append({"name": n, "depth": depth, "fname": f, "gname": g, "relative": rng.random() < 0.3, "fallback": True})
     results = corecheck.pool().map(run_case, cases, chunksize=8)
     jc = []
     for c, r in zip(cases, results):
@@ -151,7 +156,7 @@ def run(tier, seed):
         sig = {"at": "name-tour", "failed_at": rec.get("failed_at", "compare"), "has_quote": '"' in c["name"]}
         chk.violation(sig, {"name": c["name"], "classes": chars, "record": {k: v for k, v in rec.items() if k not in ("tree_mid", "tree_end")}}, {"case": c})
     # the server-side meaning of every command of the tours: FtpCore trace validation
-    ok_idx = [i for i in range(len(cases))]
+    ok_idx = [i for i in range(len(cases)) if not cases[i].get("fallback")]   # (a server stripped of MLSD/MLST is not the model's server)
     cfg = results[0]["cfg"]
     res, tot = tlc.validate_traces(cfg, [results[i]["trace"] for i in ok_idx])
     chk.add_tlc(tot)
